@@ -752,7 +752,7 @@ namespace xsimd
         template <class A>
         XSIMD_INLINE void transpose(batch<uint16_t, A>* matrix_begin, batch<uint16_t, A>* matrix_end, requires_arch<generic>) noexcept
         {
-            transpose(reinterpret_cast<batch<int16_t, A>*>(matrix_begin), reinterpret_cast<batch<int16_t, A>*>(matrix_end), A {});
+            detail::transpose_as<int16_t>(matrix_begin, matrix_end);
         }
 
         template <class A, class = typename std::enable_if<batch<int8_t, A>::size == 16, void>::type>
@@ -842,7 +842,7 @@ namespace xsimd
         template <class A>
         XSIMD_INLINE void transpose(batch<uint8_t, A>* matrix_begin, batch<uint8_t, A>* matrix_end, requires_arch<generic>) noexcept
         {
-            transpose(reinterpret_cast<batch<int8_t, A>*>(matrix_begin), reinterpret_cast<batch<int8_t, A>*>(matrix_end), A {});
+            detail::transpose_as<int8_t>(matrix_begin, matrix_end);
         }
 
     }
